@@ -9,6 +9,7 @@ import (
 	"reflect"
 	"regexp"
 	"sort"
+	"strings"
 	"time"
 
 	blsu "github.com/protolambda/bls12-381-util"
@@ -440,6 +441,57 @@ func c03Mutators() []mutator {
 			return true
 		}},
 	)
+	// ---- correctly signed slashings of validators outside the slashability window [activation_epoch, withdrawable_epoch), or slashed already
+	notSlashable := func(m *mutCtx) (uint64, bool) {
+		cur := m.sp.CurrentEpoch(m.pre)
+		best, rank := uint64(0), 0
+		for i := range m.pre.Validators {
+			v := &m.pre.Validators[i]
+			if refspec.IsSlashable(v, cur) {
+				continue
+			}
+			r := 1
+			switch {
+			case !v.Slashed && v.WithdrawableEpoch == cur: // the first epoch in which it is no longer slashable
+				r = 4
+			case !v.Slashed && v.ActivationEpoch > cur:
+				r = 3
+			case !v.Slashed:
+				r = 2
+			}
+			if r > rank {
+				best, rank = uint64(i), r
+			}
+		}
+		if rank == 4 {
+			m.b.Inc("slashing_mutants_of_a_validator_in_its_withdrawable_epoch")
+		}
+		return best, rank > 0
+	}
+	muts = append(muts,
+		mutator{"proposer-slashing/added-for-a-validator-that-is-not-slashable", false, func(m *mutCtx, b *refspec.SignedBlock) bool {
+			if uint64(len(b.Message.Body.ProposerSlashings)) >= m.sp.MAX_PROPOSER_SLASHINGS {
+				return false
+			}
+			v, ok := notSlashable(m)
+			if !ok {
+				return false
+			}
+			b.Message.Body.ProposerSlashings = append(b.Message.Body.ProposerSlashings, m.c.MakeProposerSlashingOf(m.pre, v))
+			return true
+		}},
+		mutator{"attester-slashing/added-whose-only-attester-is-not-slashable", false, func(m *mutCtx, b *refspec.SignedBlock) bool {
+			if uint64(len(b.Message.Body.AttesterSlashings)) >= m.sp.MAX_ATTESTER_SLASHINGS {
+				return false
+			}
+			v, ok := notSlashable(m)
+			if !ok {
+				return false
+			}
+			b.Message.Body.AttesterSlashings = append(b.Message.Body.AttesterSlashings, m.c.MakeAttesterSlashingOf(m.pre, []uint64{v}))
+			return true
+		}},
+	)
 	// ---- deposits
 	muts = append(muts,
 		mutator{"deposit/dropped", false, func(m *mutCtx, b *refspec.SignedBlock) bool {
@@ -857,6 +909,16 @@ func runC03(b *fw.B) {
 		if quick {
 			sc.Epochs = min(sc.Epochs, 9)
 		}
+		if (b.Batch+k)%2 == 0 {
+			sc.WithdrawDelay = 1 // an exit of epoch 2 is withdrawable in epoch 8: the chain reaches the end of a slashability window
+		}
+		var wdMuts []mutator
+		for _, mu := range muts {
+			if strings.Contains(mu.name, "not-slashable") && strings.Contains(mu.name, "added") {
+				wdMuts = append(wdMuts, mu)
+			}
+		}
+		wdSpecials := 0
 		b.Case("chain-"+fam, sc.String())
 		bases := 0
 		perFork := map[int]int{}
@@ -874,6 +936,19 @@ func runC03(b *fw.B) {
 				}
 				if len(committees) >= 2 {
 					oldSync = &committees[len(committees)-2]
+				}
+			}
+			if wdSpecials < 2 {
+				// always taken, for the two mutators concerned: a block in the epoch that is the withdrawable epoch of a validator that was
+				// never slashed (the first epoch in which a slashing of it must be refused)
+				cur := c.Sp.CurrentEpoch(built.Pre)
+				for i := range built.Pre.Validators {
+					if v := &built.Pre.Validators[i]; !v.Slashed && v.WithdrawableEpoch == cur {
+						wdSpecials++
+						b.Inc("bases_with_a_validator_in_its_withdrawable_epoch")
+						c03Base(b, ctx, c, built, wdMuts, sc, nil)
+						break
+					}
 				}
 			}
 			if oldSync != nil && syncSpecials < 2 {
